@@ -306,7 +306,6 @@ class Runner:
             "writes": [{"k": e[0], "p": self.describe(e[1])} for e in res["writes"]],
             "eff": [abstract_pattern(w, p) for p in eff],
             "ign": ign,
-            "sealed": [{"r": list(r), "disk": d} for r, d in sorted(self.sealed.items())],
             "pre": pre,
             "post": post,
         }
@@ -316,8 +315,6 @@ class Runner:
             line["stdout"] = res["out"]
         if os.environ.get("VERIF_KEEP_TEXT"):
             line["stdout"], line["stderr"] = res["out"], res["err"]
-        if k == "create" and res["exit"] == 0:
-            self.sealed[tuple(op["R"])] = pre["disk"]
         self.i += 1
         self.lines.append(line)
         return line
